@@ -1,4 +1,5 @@
 import EinxModel.Proofs.FuseScope
+import EinxModel.Proofs.FuseText
 import EinxModel.Proofs.CompileOrder
 /-!
 C04, name re-use, part 6: the three facts about the output of `compile` that `fuseAll_safe` needs (besides closedness,
@@ -94,5 +95,40 @@ theorem compile_fuse_facts (cfg : UCfg) (fc : FCfg) (g : Graph) (comp : Compiled
     | true =>
       simp only [hb, if_true] at h
       exact fin _ _ _ rfl rfl rfl (Or.inr rfl) h
+
+/-- The header of a block: no reads, and output variables (of imports) that do not allow re-use. -/
+theorem header_props (st : GState) (hinfo : ∀ p ∈ st.bodyS, InfoOK st.vars p) (b : Nat) :
+    ∀ s ∈ (st.header b).map (·.stmt), s.reads = [] ∧ ∀ o ∈ s.outputVars, reuseV st.vars o = false := by
+  intro s hs
+  constructor
+  · apply List.eq_nil_iff_forall_not_mem.2
+    intro w hw
+    have := Stmt.reads_sub_inputVars s w hw
+    rw [header_noinputs st b s hs] at this
+    simp at this
+  · obtain ⟨x, hx, rfl⟩ := List.mem_map.1 hs
+    unfold GState.header at hx
+    split at hx
+    · rcases List.mem_append.1 hx with h | h
+      · obtain ⟨c, _, rfl⟩ := List.mem_map.1 h
+        intro o ho
+        simp [Stmt.outputVars] at ho
+      · rw [List.mem_reverse] at h
+        obtain ⟨p, hp, rfl⟩ := List.mem_map.1 h
+        obtain ⟨hp1, hp2⟩ := List.mem_filter.1 hp
+        intro o ho
+        exact (hinfo (p.1, p.2.stmt) (List.mem_map.2 ⟨p, hp1, rfl⟩) o ho).2 hp2
+    · simp at hx
+
+/-- **Text order**: the groups of `fuseAll` satisfy `fuseSafe` and `entrySafe` on the text of every block. -/
+theorem fuseAll_text_safe (fc : FCfg) (hL : fc.checkLater = true) (hB : fc.checkBlock = true) (st : GState) (n : Nat)
+    (hnd : (outsOf st.program).Nodup) (hcl : liveIn st.program = []) (hblk : ∀ p ∈ st.body, p.1 < n)
+    (hinfo : ∀ p ∈ st.bodyS, InfoOK st.vars p) (b : Nat) :
+    fuseSafe (fun v => (fuseAll fc st n)[v]?.getD v) ((st.block b).map (·.stmt)) = true ∧
+    entrySafe (fun v => (fuseAll fc st n)[v]?.getD v) ((st.block b).map (·.stmt)) = true := by
+  rw [block_stmts]
+  have hP := bodyS_program st
+  exact text_safe st.bodyS (blockOfV st.vars) (reuseV st.vars) n (fuseAll fc st n) (fuseAll_finv fc hL hB st n hnd hcl hblk)
+    (by rw [hP]; exact hnd) (by rw [hP]; exact hcl) hinfo b _ (header_props st hinfo b)
 
 end Einx.Compile
